@@ -43,4 +43,16 @@ REG = {
     note="Entries are small integers times 2^k (exact in double): rounding behaviour of sums of general reals is not exercised. "
          "Norm() is compared through round(Norm()^2). Trusted: TLC, the recorder's exact rescaling, fork-based outcome classification.",
     technique="TLA+ definitions of the algebra (laws checked by TLC) + trace validation of every operation/spelling/shape recorded from the library"),
+ "C10": dict(
+    engine="spec/Guards.tla, MC_Guards.tla, Trace_Guards.tla; harness/c10.cpp",
+    design_ref="DESIGN.md §4.10, Appendix C",
+    text="Guards.tla is a decision table: 1562 requests over 51 guarded entry points with abstract arguments on both sides of every "
+         "guard, and Meaningful(request) written from the mathematics. TLC enumerates the table, checks that every entry point is "
+         "exercised on both sides (non-vacuity) and exports it; each request is executed by the real library in its own child process "
+         "and the recorded outcome is validated against Trace_Guards: meaningful <=> returns, a refusal has a failure status and a "
+         "non-empty diagnostic, and no request ends in a signal, libstdc++ assertion or sanitizer report.",
+    note="quick: g++ -D_GLIBCXX_ASSERTIONS build; thorough: additionally clang++ -fsanitize=address,undefined. Requests outside the "
+         "enumerated abstract domains are not decided. Rows where the statement leaves the outcome open (two-point axes of the 2D "
+         "table, cdf in {0,1} for Inv_CDF_Poisson, Inv_Erf(1), envelope exceeded by <1%) accept either outcome but never a memory error.",
+    technique="TLA+ decision-table specification enumerated by TLC; every request executed in a child process and its outcome trace-validated"),
 }
